@@ -319,6 +319,12 @@ func (e *Engine) driverA(t *core.Tape, cfg *core.Config, st *core.Stats, enumSch
 	if S == 0 {
 		return nil
 	}
+	// the acceptable set costs one model run per micro-step (times two store orders): long schedules are
+	// compared fault-free only, which keeps the cost of a run bounded
+	if free.Steps > 1200 && !cfg.Thorough || free.Steps > 3000 {
+		st.Probe("long_schedule_fault_free_only")
+		return nil
+	}
 	// acceptable set for raise@k
 	var acc map[uint64]bool
 	var accMaxSteps int64
